@@ -14,16 +14,24 @@ RULE = ('every string over the 10-character alphabet {a B 1 space ~ - { } \\ :} 
         'num.names$ on a real Interpreter stack, change.case$ with a family of mode strings (T, title, x, empty ...); '
         'every string of length <= 7 over {a n d A space tab { }} containing "and" through the name-list splitter '
         '(utils.split_name_list, num.names$); seeded random long strings (ASCII incl. a n d A N D and the comma, the 29 '
-        'white-space code points, symbols, nesting up to and beyond the 100-level guard, counts and windows up to 2^64 and 10^20); a Unicode family (cased and '
-        'caseless non-ASCII letters, digits, and the letters whose case mapping changes the length); '
+        'white-space code points, symbols, nesting up to and beyond the 100-level guard, counts and windows up to 2^64 and 10^20, unmatched closing braces in front); a Unicode family (cased and '
+        'caseless non-ASCII letters, digits, the letters whose case mapping changes the length and the capital sigma in and outside special characters -- all compared with the model); '
+        'str.lower / str.upper themselves on sigma words, length-changing letters and blocks of code points (op texcase); the hard-coded constants against the source (op texconsts); '
         'non-trivial = contains a brace, backslash or separator; distinct by case JSON')
-TRUSTED = ['character classes and single-character case mapping are the running interpreter\'s tables (regenerated on every run: '
-           'Gen/Unicode.lean, Gen/UnicodeCase.lean, Gen/UnicodeC12.lean); purify_special_char_re is ASCII as in the code',
+TRUSTED = ['character classes and case mapping are the running interpreter\'s tables (regenerated on every run: '
+           'Gen/Unicode.lean, Gen/UnicodeCase.lean, Gen/UnicodeLower.lean, Gen/UnicodeC12.lean incl. the 102 multi-character upper-case images); '
+           'purify_special_char_re is ASCII as in the code',
+           'str.lower / str.upper as string operations (lowerPy: CPython do_lower with handle_capital_sigma, its two character classes recovered by '
+           'probing the interpreter; upperPy: context-free) are hand models, tied by op texcase on every run (all sigma words <= 4 over an '
+           '8-character alphabet, every length-changing letter, code-point blocks: all of Unicode in the thorough tier)',
+           'the regular expressions, default arguments and literals the model hard-codes are compared with the source of the tree under test on every run (op texconsts)',
            're.split / str.partition / str.strip semantics on the four separator shapes are modelled by hand matchers',
            'the oracle\'s reference splitter uses Python\'s re on the brace-level-0 stretches of the string']
-ASSUMPTIONS = ['case change is modelled character by character: strings containing a letter whose upper- or lower-case form is not '
-               'one character (102 + 1 code points: ß ŉ ǰ ΐ ﬁ ... İ) or U+03A3 (context-dependent final sigma) are outside the '
-               'model (Lean: caseDomain); on them the property clauses are evaluated on the implementation alone '
+ASSUMPTIONS = ['the case-changing model that is compared with the code has NO domain restriction (Model/TeXCaseFull.lean: str.lower / str.upper as '
+               'string operations, full case mapping and final sigma); the theorems on length / letters up to case / idempotence / braces '
+               '(C12_case_*_unicode, C12_case_len_full_partial) need caseDomain (no letter whose upper- or lower-case form is not one '
+               'character: 102 + 1 code points, no U+03A3); outside it the proved facts are C12_case_len_full_ge, C12_case_plain_str_methods, '
+               'C12_case_upper_idem_plain, C12_word_ops_idem, and the clauses are evaluated on the implementation '
                '(known finding C12-case-length-changing-letter)']
 
 ALPHABET = ['a', 'B', '1', ' ', '~', '-', '{', '}', '\\', ':']
@@ -72,14 +80,67 @@ def _builtin(name, *args):
     return r
 
 
+def _consts_of(f):
+    """the literals of a function and of the functions nested in it, docstring excluded"""
+    out = []
+
+    def walk(co):
+        for k in co.co_consts:
+            if hasattr(k, 'co_code'):
+                walk(k)
+            else:
+                out.append(k)
+    walk(f.__code__)
+    return [k for k in out if k != f.__doc__]
+
+
+def _one(xs, what):
+    xs = list(xs)
+    if len(xs) != 1:
+        return {'ambiguous ' + what: [repr(x) for x in xs]}
+    return xs[0]
+
+
+def _source_constants():
+    """the constants of the anchored source that the Lean model hard-codes, read off the tree under test"""
+    import inspect
+    from pybtex.bibtex import utils, builtins
+    sig = inspect.signature
+    ab = sig(utils.bibtex_abbreviate).parameters
+    sp = sig(utils.split_tex_string).parameters
+    cc = builtins.builtins['change.case$'].f
+    wd = _consts_of(utils.bibtex_width)
+    return {
+        'max_level': sig(utils.BibTeXString.__init__).parameters['max_level'].default,
+        'purify_special_char_re': utils.purify_special_char_re.pattern,
+        'BIBTEX_SPACE_RE': utils.BIBTEX_SPACE_RE.pattern,
+        'BRACE_RE': utils.BRACE_RE.pattern,
+        'name_list_sep': _one([k for k in _consts_of(utils.split_name_list) if isinstance(k, str)], 'separator of split_name_list'),
+        'abbreviate_delimiter': _one([k for k in _consts_of(utils.bibtex_abbreviate) if isinstance(k, str)], 'default delimiter'),
+        'abbreviate_separator': ab['separator'].default,
+        'change_case_modes': _one([list(k) for k in _consts_of(cc) if isinstance(k, tuple)], 'mode letters of change.case$'),
+        'width_special_braces': _one([k for k in wd if isinstance(k, int) and not isinstance(k, bool) and k > 2], 'width of the two braces'),
+        'width_special_skip': _one([k for k in wd if isinstance(k, int) and not isinstance(k, bool) and k == 2], 'characters skipped in a special character'),
+        'purify_blank_chars': _one([k for k in _consts_of(utils.bibtex_purify) if isinstance(k, str) and len(k) == 2], 'characters purify turns into a blank'),
+        'first_letter_format': _one([k for k in _consts_of(utils.bibtex_first_letter) if isinstance(k, str) and len(k) > 1], 'format of a special first letter'),
+        'split_defaults': [sp['sep'].default, sp['strip'].default, sp['filter_empty'].default],
+    }
+
+
 def in_case_domain(s):
     return all(len(c.upper()) == 1 and len(c.lower()) == 1 and c != 'Σ' for c in s)
 
 
 def impl(case):
     from pybtex.bibtex import utils
-    s = case['s']
+    s = case.get('s', '')
     out = {}
+    if case['op'] == 'texconsts':
+        return _source_constants()
+    if case['op'] == 'texcase':
+        # the two string methods change_case calls (on one-character tokens and on the words of a special character)
+        w = case['w']
+        return {'lower': w.lower(), 'upper': w.upper()}
     if case['op'] == 'texsplit':
         out['and'] = _call(utils.split_name_list, s)
         out['raw_and'] = _call(utils.split_tex_string, s, SEPS['and'], False)
@@ -116,14 +177,12 @@ def impl(case):
 
 
 def compare_view(io):
-    """What is compared with the model: case change only inside the model's domain."""
+    """What is compared with the model: everything (the case-changing model has no domain restriction any more:
+    Model/TeXCaseFull.lean runs str.lower / str.upper of the interpreter as string operations)."""
     if not isinstance(io, dict) or '_case_domain' not in io:
         return io
     v = dict(io)
-    if not v.pop('_case_domain'):
-        v['case'] = 'outside-domain'
-        v['b'] = dict(v['b'])
-        v['b']['change.case$'] = 'outside-domain'
+    v.pop('_case_domain')
     return v
 
 
@@ -234,6 +293,17 @@ def _ends_in_unclosed_special(s):
     return False
 
 
+def _depth_sat(s):
+    """brace depth at the end of s by BibTeX's rule: a '}' at depth 0 does not lower the depth (Spec.depthSat)"""
+    d = 0
+    for c in s:
+        if c == '{':
+            d += 1
+        elif c == '}' and d > 0:
+            d -= 1
+    return d
+
+
 def _length_changing(s):
     """the letters of s whose upper- or lower-case form is not one character"""
     return [c for c in s if len(c.upper()) != 1 or len(c.lower()) != 1]
@@ -328,15 +398,33 @@ def _check_case(bad, s, label, cc, again, toks, balanced, scan):
                         break
 
 
+def _check_word_ops(bad, w, io):
+    """facts about str.lower / str.upper the case-change clauses rest on (evaluated on the interpreter's answers)"""
+    lo, up = io['lower'], io['upper']
+    if lo.lower() != lo:
+        bad('case_idem', 'lower(%r) = %r is not stable under lower' % (w, lo))
+    if up.upper() != up:
+        bad('case_idem', 'upper(%r) = %r is not stable under upper' % (w, up))
+    if len(lo) < len(w) or len(up) < len(w):
+        bad('case_len', 'lower/upper of %r is shorter than the word' % w)
+    if in_case_domain(w) and (len(lo) != len(w) or len(up) != len(w)):
+        bad('case_len', 'lower/upper of %r (no length-changing letter) changes the length' % w)
+    return None
+
+
 def oracle(case, io, reply):
     from pybtex.bibtex import utils
-    s = case['s']
+    s = case.get('s', '')
     spec = reply.get('spec', {})
     fails = []
 
     def bad(clause, msg):
         fails.append('%s: %s' % (clause, msg))
 
+    if case['op'] == 'texconsts':
+        return fails
+    if case['op'] == 'texcase':
+        return _check_word_ops(bad, case['w'], io) or fails
     _walk_errors(io, '', bad, s)
     if case['op'] == 'texsplit':
         _check_split(bad, s, 'split_name_list', 'and', io['raw_and'], io['and'])
@@ -374,6 +462,7 @@ def oracle(case, io, reply):
                 if n != sum(1 for t, _ in toks if t not in ('{', '}')):
                     bad('len_counts', '%s: text length of %r is %r but it has %d non-brace tokens' % (name, s, n, sum(1 for t, _ in toks if t not in ('{', '}'))))
     n = io['len']
+    unclosed_special = _ends_in_unclosed_special(s)
     if not _is_err(n):
         for name, prefixes in (('bibtex_prefix', io['prefix']), ('text.prefix$', b['text.prefix$'])):
             for cnt, p in zip(case['ns'], prefixes):
@@ -393,6 +482,16 @@ def oracle(case, io, reply):
                     bad('prefix_shape', '%s(%r, %d) = %r is not a prefix of the string plus closing braces' % (name, s, cnt, p))
                 elif balanced and not _balanced(p):
                     bad('prefix_shape', '%s(%r, %d) = %r does not close the braces it opened' % (name, s, cnt, p))
+                elif not unclosed_special:
+                    # what the text says, with BibTeX's depth (a '}' at depth 0 does not lower it; a net count of braces is
+                    # something else behind an unmatched '}'): every group the prefix opened is closed, and the result is a
+                    # prefix q of the string followed by exactly depth(q) closers
+                    if _depth_sat(p) != 0:
+                        bad('prefix_shape', '%s(%r, %d) = %r does not close the braces it opened (depth %d at its end)' % (
+                            name, s, cnt, p, _depth_sat(p)))
+                    elif not any(s.startswith(p[:len(p) - j]) and _depth_sat(p[:len(p) - j]) == j for j in range(k + 1)):
+                        bad('prefix_shape', '%s(%r, %d) = %r is not a prefix of the string plus exactly the closers of the groups it left open' % (
+                            name, s, cnt, p))
     for name, subs in (('bibtex_substring', io['substring']), ('substring$', b['substring$'])):
         for (a, c), got, want in zip(case['subs'], subs, spec.get('substring', [])):
             if got != want:
@@ -456,6 +555,11 @@ KNOWN_MATCHERS = {
 
 
 def buckets(case, io):
+    if case['op'] == 'texconsts':
+        return ['texconsts']
+    if case['op'] == 'texcase':
+        w = case['w']
+        return ['texcase', 'texcase:' + ('sigma' if 'Σ' in w else 'multi' if not in_case_domain(w) else 'block' if len(w) > 64 else 'word')]
     s = case['s']
     b = [case['op']]
     if '{' in s or '}' in s:
@@ -475,6 +579,10 @@ def buckets(case, io):
 
 
 def nontrivial(case, io):
+    if case['op'] == 'texconsts':
+        return True
+    if case['op'] == 'texcase':
+        return io['lower'] != case['w'] or io['upper'] != case['w']
     s = case['s']
     return any(c in s for c in '{}\\~- ,')
 
@@ -484,6 +592,10 @@ def corpus():
 
 
 def valid_case(case):
+    if isinstance(case, dict) and case.get('op') == 'texconsts':
+        return True
+    if isinstance(case, dict) and case.get('op') == 'texcase':
+        return isinstance(case.get('w'), str)
     if not isinstance(case, dict) or not isinstance(case.get('s'), str) or case.get('op') not in ('texall', 'texsplit'):
         return False
     if case['op'] == 'texsplit':
@@ -526,6 +638,38 @@ NAMES = ["\\'Emile Zola", "Jean--Pierre", "-A", "A-", "--", "Rodr\\'{\\i}guez", 
          "Jean-{\\'E}mile", "{-}a", "\\LaTeX Project Team", "123 123 123 {}", "{Andrew} Blake", "d'-Aviano", "é-Édouard", "毛-泽东", "-ß"]
 
 
+SIGMA_ALPHABET = ['Σ', 'α', 'A', "'", '\u0301', ' ', '1', '\u02b0']   # capital sigma, cased, case-ignorable (incl. cased AND ignorable U+02B0), neither
+SIGMA_STRINGS = ['ΑΣ', 'ΑΣ.', "ΑΣ'", "ΑΣ'α", 'Σ', 'ΣΑ', 'ΑΣ ΣΑ', 'ΟΔΥΣΣΕΥΣ', 'aΣ\u0301', 'İΣ', 'ßΣ', 'ΑΣ:', ': ΑΣ', 'ΑΣ\\x', '\\xΣ']
+BLOCK = 1024
+
+
+def _word_scope(tier):
+    """cases for the two string methods (op texcase): every word of length <= 4 over SIGMA_ALPHABET containing a capital
+    sigma; every letter whose case mapping changes the length, alone and in four neighbourhoods; the code points of Unicode in
+    blocks of 1024 (quick: the blocks that contain a character with a case mapping; thorough: all)"""
+    out = []
+    for n in range(1, 5):
+        for tup in itertools.product(SIGMA_ALPHABET, repeat=n):
+            if 'Σ' in tup:
+                out.append({'op': 'texcase', 'w': ''.join(tup)})
+    n_sigma = len(out)
+    multi = [chr(c) for c in range(0x110000) if not 0xD800 <= c <= 0xDFFF and (len(chr(c).upper()) != 1 or len(chr(c).lower()) != 1)]
+    for c in multi:
+        for tmpl in ('%s', 'a%sB', '%sΣ', 'Σ%s', '%s%s'):
+            out.append({'op': 'texcase', 'w': tmpl.replace('%s', c)})
+    n_blocks = 0
+    for lo in range(0, 0x110000, BLOCK):
+        w = ''.join(chr(c) for c in range(lo, lo + BLOCK) if not 0xD800 <= c <= 0xDFFF)
+        if w and (tier == 'thorough' or w.lower() != w or w.upper() != w):
+            out.append({'op': 'texcase', 'w': w})
+            n_blocks += 1
+    return out, n_sigma, len(multi), n_blocks
+
+
+# unmatched closing braces at depth 0 in front of groups / special characters (the prefix must close what it opened)
+PREFIX_STRINGS = ['}cd {efg} h', 'x}y{z{w', '}{\\a b}c', '}}{a{b}c}', 'a}{\\x y}{z w}', '}{a}{b', '}a}{{b}c', '}{{\\a}b}', 'a}}b{c d{e}f}g']
+
+
 def _random_string(rng):
     kind = rng.random()
     if kind < 0.06:
@@ -539,7 +683,10 @@ def _random_string(rng):
     if kind < 0.30:
         pool = pool + UNI_IN * 2 + (UNI_OUT if kind < 0.12 else [])
         n = rng.randint(3, 30)
-    return ''.join(rng.choice(pool) for _ in range(n))
+    body = ''.join(rng.choice(pool) for _ in range(n))
+    if rng.random() < 0.1:
+        body = rng.choice(['}', '}}', 'a}', '} ']) + body
+    return body
 
 
 def _and_scope(maxlen):
@@ -568,8 +715,15 @@ def gen_cases(tier, rng, info):
     n_comma = len(cases) - n_main
     and_cases = _and_scope(7)
     cases.extend(and_cases)
+    cases.append({'op': 'texconsts'})     # the constants the model hard-codes against the source of the tree under test
+    word_cases, n_sigma, n_multi, n_blocks = _word_scope(tier)
+    cases.extend(word_cases)
     info['exhaustive'] = True
-    info['scope'] = ('all %d strings of length <= %d over %r and all %d strings of length <= 4 over %r containing a comma, x all prefix '
+    info['scope'] = ('str.lower / str.upper (op texcase): all %d words of length <= 4 over %r containing a capital sigma, the %d letters whose case '
+                     'mapping changes the length in 5 neighbourhoods, %d blocks of %d consecutive code points (%s); ' % (
+                         n_sigma, SIGMA_ALPHABET, n_multi, n_blocks, BLOCK,
+                         'every code point of Unicode' if tier == 'thorough' else 'every block with a character that has a case mapping')) + \
+                    ('all %d strings of length <= %d over %r and all %d strings of length <= 4 over %r containing a comma, x all prefix '
                      'counts and (start,length) windows in/beyond bounds, x the change.case$ modes %r; all %d strings of length <= 7 over '
                      '%r containing "and" (any case) through split_name_list / num.names$ / the default splitter' % (
                          n_main, maxlen, ALPHABET, n_comma, COMMA_ALPHABET, MODES, len(and_cases), AND_ALPHABET))
@@ -584,6 +738,12 @@ def gen_cases(tier, rng, info):
     for c in UNI_OUT + UNI_IN:
         for tmpl in ('%s', 'a%sB', '{\\x a%s}', '{%s}', ': %s', '%s-%s'):
             cases.append(_mk(tmpl.replace('%s', c), ['U', 'title', 'l']))
+    for w in PREFIX_STRINGS:
+        cases.append(_mk(w))
+    # the capital sigma: character by character at brace level 0 (never final), by context inside a special character
+    for w in SIGMA_STRINGS:
+        for tmpl in ('%s', '{\\x %s}', '{\\x a %s b}', '{%s}', 'a{\\%s}', '{\\x %s'):
+            cases.append(_mk(tmpl.replace('%s', w), ['U', 'title', 'l']))
     if tier == 'thorough':
         for _ in range(50000):
             cases.append(_mk(''.join(rng.choice(ALPHABET) for _ in range(6))))
@@ -646,6 +806,16 @@ THEOREMS = {
     'C12_width_plain': '[anchored mechanism] width of a brace-free string = sum of the character widths',
     'C12_width_special': '[anchored mechanism] a closed special character: its two braces + the characters after the first one of its command (inner braces not counted) - 1000',
     'C12_width_onepass': "[anchored mechanism] bibtex_width WITHOUT the scanner: on every string within 100 nesting levels it is the one-pass width Spec.widthOnePass (a brace counter only): outside a special character EVERY character adds its own width, braces and backslashes included; a special character is a { at brace level 0 directly followed by a backslash and nothing else (repair C03-2); what its text adds is pybtex's rule (finding C03-width-special-char-contents)",
+    'C12_case_full_wiring': '[model wiring] the case-changing model with str.lower/str.upper as STRING operations (Model/TeXCaseFull.lean, what the check drives, no domain restriction), run with character-by-character operations, is the character-level model of the theorems above',
+    'C12_case_full_on_domain': 'hypothesis caseDomain s (no letter whose case mapping changes the length, no capital sigma): the model with the interpreter\'s full str.lower (expansion of U+0130, final-sigma rule) and str.upper (102 expansions) equals the character-by-character model, for change_case with every mode and change.case$ with every mode string; so the _unicode theorems are about what the check compares with the code',
+    'C12_case_len_full_partial': 'hypotheses caseDomain s and every special character closed: the unrestricted model preserves the length and every letter up to case',
+    'C12_case_len_full_neg': 'witnesses ß (u) -> SS, U+0130 (l) -> i + U+0307, {\\x ﬁ} (u) -> {\\x FI}: without caseDomain length preservation fails with all special characters closed (finding C12-case-length-changing-letter as a fact of the driven model)',
+    'C12_case_len_full_ge': 'EVERY string, every mode, no hypothesis: case change (full case mapping, unclosed special characters included) never makes the string shorter',
+    'C12_case_plain_str_methods': 'EVERY string without braces (length-changing letters and the capital sigma included): change_case(s, u) IS s.upper(); change_case(s, l) is the character-by-character lower-casing, which is s.lower() when s has no capital sigma (with one, the sigma is never final at brace level 0: witness in _nonvacuous)',
+    'C12_word_ops_idem': 'str.lower and str.upper as modelled from the regenerated tables of the interpreter (full mapping, final sigma) are idempotent on EVERY string',
+    'C12_case_upper_idem_plain': 'EVERY string without braces, no caseDomain hypothesis: upper-casing is idempotent (ß -> SS -> SS)',
+    'C12_case_braces_full': 'EVERY string, every mode, NO hypothesis (full case mapping, capital sigma, unclosed special characters): the result is the input token by token with levels kept; a token inside braces that is not a special character is unchanged; in a special character the words stay in place, command words are unchanged, every other word is itself, its str.lower or its str.upper',
+    'C12_prefix_closes_opened': 'hypothesis every special character of s closed; every count: the text prefix scanned with BibTeX\'s depth rule (a "}" at depth 0 does not lower the depth) ends at depth 0 -- every group it opened is closed, also behind unmatched closing braces -- and it is a prefix q of s followed by exactly depthSat(q) closers',
     'C12_width_literal': '[anchored mechanism] "takes the literal literally": a string without special character (no { at brace level 0 directly followed by a backslash) within 100 nesting levels has the sum of the widths of its characters, whatever they are - {x\\y} counts its five characters',
 }
 
@@ -658,7 +828,11 @@ LEVEL_TEXT = ('Machine-checked proofs (Lean 4) about the executable model of pyb
               'under "every special character is closed", with machine-checked counterexamples without it) and inside braces touches only '
               'the non-command words of a special character -- purify and case change both over ASCII and over the character tables of '
               'the running interpreter (str.isalnum, single-character str.lower/str.upper, regenerated on every run; "up to case" = the '
-              'canonical form lower(upper(c)), proved canonical from kernel-evaluated table checks); change.case$ accepts exactly the '
+              'canonical form lower(upper(c)), proved canonical from kernel-evaluated table checks); the model that is compared with the code '
+              'runs str.lower / str.upper as string operations on EVERY string (full case mapping, final sigma) and is proved equal to the '
+              'character-by-character model on caseDomain, never to shorten a string, to be s.upper() / character-wise lower on brace-free '
+              'strings, with upper-casing idempotent there; the text prefix closes every group it opened (BibTeX depth, also behind unmatched '
+              'closing braces); change.case$ accepts exactly the '
               'mode letters l/L u/U t/T as first character; top-level splitting of EVERY string (balanced or not) gives back the input '
               'with one separator match between consecutive parts, every dropped separator at brace level 0, and NO top-level separator '
               'match left inside a part (maximality), for the unstripped pieces and for the stripped parts the call sites get; the '
@@ -675,9 +849,10 @@ LEVEL_NOTE = ('Trusted: Lean kernel; axioms propext/Classical.choice/Quot.sound 
               'character tables are those of the interpreter the check runs on. The three case-change laws are false of the code on '
               'strings with an unclosed special character (known finding C12-unclosed-special-char; C12_case_len_neg, '
               'C12_case_letters_neg, C12_case_idem_neg are the proved witnesses). Length preservation is false of the code on strings with a '
-              'letter whose case mapping is not one character (known finding C12-case-length-changing-letter); such strings and the '
-              'capital sigma are outside the case-changing model (caseDomain), the clauses are evaluated on the implementation alone '
-              'there. The splitting theorems for unbalanced input describe the code AFTER the repair proposed_fixes/C12-1 '
+              'letter whose case mapping is not one character (known finding C12-case-length-changing-letter; C12_case_len_full_neg is the '
+              'proved witness); such strings and the capital sigma are outside caseDomain, the hypothesis of the length / letters / idempotence '
+              'theorems, but inside the model that is compared with the code (Model/TeXCaseFull.lean; str.lower\'s final-sigma rule is a hand '
+              'model of CPython\'s handle_capital_sigma). The splitting theorems for unbalanced input describe the code AFTER the repair proposed_fixes/C12-1 '
               '(_find_closing_brace: an unclosed group extends to the end of the string). bibtex_width is described AFTER the repair proposed_fixes/C03-2 (a backslash inside an ordinary group '
               'is no special character); it is proved equal to a scanner-free one-pass width (C12_width_onepass), whose treatment of the TEXT of a special '
               'character is pybtex\'s, not BibTeX\'s (finding C03-width-special-char-contents, recorded for C03). The first-letter / abbreviation / width theorems '
